@@ -6,6 +6,7 @@ package interp
 
 import (
 	"fmt"
+	"reflect"
 	"go/token"
 	"go/types"
 	"strconv"
@@ -231,6 +232,36 @@ func init() {
 	for _, n := range []string{"strconv.FormatInt", "strconv.Itoa", "strconv.FormatUint", "strconv.FormatFloat", "strconv.FormatBool"} {
 		ext(n, symNum(str))
 	}
+	// a symbolic integer with only a few feasible values (e.g. one parsed from a
+	// short digit string) is case-split and rendered exactly
+	exactInt := func(base func(args []value) int, signed bool, fallback externalFn) externalFn {
+		return func(fr *frame, args []value) value {
+			sx, ok := args[0].(sym)
+			if !ok || isFloatKind(sx.k) {
+				return fallback(fr, args)
+			}
+			b := base(args)
+			if b < 2 || !eng.fewValues(sx.t, 16) {
+				return fallback(fr, args)
+			}
+			w, _ := kindWidth(sx.k)
+			v := eng.concretize(sx.t)
+			if signed {
+				return strconv.FormatInt(signExt(v, w), b)
+			}
+			return strconv.FormatUint(v, b)
+		}
+	}
+	ten := func(args []value) int { return 10 }
+	argBase := func(args []value) int {
+		if _, ok := args[1].(sym); ok {
+			return 0
+		}
+		return int(asInt64(args[1]))
+	}
+	ext("strconv.Itoa", exactInt(ten, true, symNum(str)))
+	ext("strconv.FormatInt", exactInt(argBase, true, symNum(str)))
+	ext("strconv.FormatUint", exactInt(argBase, false, symNum(str)))
 	for _, n := range []string{"strconv.AppendInt", "strconv.AppendUint", "strconv.AppendFloat"} {
 		ext(n, symNum(app))
 	}
@@ -326,6 +357,17 @@ func init() {
 	ext("crypto/internal/boring/sig.StandardCrypto", nop)
 	ext("crypto/internal/boring/sig.BoringCrypto", nop)
 	ext("crypto/internal/boring/sig.FIPSOnly", nop)
+
+	// ---- reflect: kind predicates ----
+	kindIn := func(lo, hi reflect.Kind) externalFn {
+		return func(fr *frame, args []value) value {
+			k := reflectKind(rV2T(args[0]).t)
+			return k >= lo && k <= hi
+		}
+	}
+	ext("(reflect.Value).CanInt", kindIn(reflect.Int, reflect.Int64))
+	ext("(reflect.Value).CanUint", kindIn(reflect.Uint, reflect.Uintptr))
+	ext("(reflect.Value).CanFloat", kindIn(reflect.Float32, reflect.Float64))
 
 	// ---- os / runtime odds and ends ----
 	ext("runtime.Callers", func(fr *frame, args []value) value { return 0 })
